@@ -144,6 +144,10 @@ def expand(job):
             if d["a"]["hh"] == 24 and not (d["fmt"] == 1 or recur.is_exact(d["d"])):
                 # 24:00 + month/year arithmetic has no single reading (DESIGN 6.3): such anchors only with exact intervals
                 d["a"] = dict(d["a"], hh=0, mi=0 if d["a"]["prec"] != "h" else -1, ss=0 if d["a"]["prec"] == "hms" else -1)
+            if d["fmt"] != 1 and rnd.random() < 0.12:
+                d["dvia"] = "arith"       # the interval is the result of Duration arithmetic on operands used before
+            if rnd.random() < 0.08:
+                d["pre"] = "overlap"      # earlier, overlapping passes over the same object
             if rnd.random() < 0.35 and recur.parseable(d):
                 d["via"] = "parse"
                 if rnd.random() < 0.5 and d["fmt"] != 1 and d["a"]["rep"] == "cal":      # few distinct texts: the same expression recurs under several modes
